@@ -273,7 +273,7 @@ pub fn run_holder_pairs(ctx: &mut Ctx, hps: &[HolderPair]) -> Vec<Vec<Option<Str
 pub fn run(ctx: &mut Ctx, replay: Option<&str>) {
     ctx.rule = "cases: honest issued SD-JWTs and holder presentations with and without KB-JWT (as C01), the C02 tamperings of the issuer-signed JWT, the C03 hand-assembled disclosure lists and the C04 key-binding attacks; \
                 every case that splits into (jwt, disclosures, kb) in its own format is re-expressed in the other one (JSON side: kb_jwt absent / null / string, with and without an extra unknown member) and both are verified with the same resolver / aud / nonce: \
-                same decision and, when accepted, same claims; holders built from both forms of an issued SD-JWT (three create_presentation calls each: the flow's own, another selection with the same key-binding arguments, a third selection without key binding) must return the same JWT, disclosure multiset and KB-JWT presence; \
+                same decision and, when accepted, same claims; holders built from both forms of an issued SD-JWT (four create_presentation calls each: the flow's own, another selection with the same key-binding arguments, a third selection without key binding, everything selected with the members in reverse order) must return the same JWT, disclosure multiset and KB-JWT presence; \
                 inputs that do not split or whose parts cannot be expressed in the other format are skipped and counted; non-trivial = every compared pair (distinct by both texts and aud / nonce)".into();
     if let Some(path) = replay {
         let case = std::fs::read_to_string(path).ok().and_then(|t| serde_json::from_str::<Value>(&t).ok()).and_then(|v| v.get("case").cloned()).unwrap_or(Value::Null);
@@ -331,7 +331,11 @@ pub fn run(ctx: &mut Ctx, replay: Option<&str>) {
         if let Ok((own, other, _)) = transcode(&mut r, &s, f.issue.fmt) {
             let mut second = f.present_args();
             second.sel = if r.chance(1, 2) { select_all(&f.issue.claims).as_object().cloned().unwrap_or_default() } else { gen_selection(&mut r, &f.issue.claims, 5).as_object().cloned().unwrap_or_default() };
-            hps.push(HolderPair { a: (own, f.issue.fmt), b: (other, f.issue.fmt.other()), calls: vec![f.present_args(), second, PresentArgs::plain(gen_selection(&mut r, &f.issue.claims, 4).as_object().cloned().unwrap_or_default())], origin: origin.clone() });
+            hps.push(HolderPair { a: (own, f.issue.fmt), b: (other, f.issue.fmt.other()), calls: {
+                let mut rev = f.present_args();
+                rev.sel = reorder_members(&mut r, &select_all(&f.issue.claims), true).as_object().cloned().unwrap_or_default();
+                vec![f.present_args(), second, PresentArgs::plain(gen_selection(&mut r, &f.issue.claims, 4).as_object().cloned().unwrap_or_default()), rev]
+            }, origin: origin.clone() });
             flows.push(f);
         }
     }
@@ -385,6 +389,54 @@ pub fn run(ctx: &mut Ctx, replay: Option<&str>) {
         }
     }
 
+    // 7. other spellings of the SAME JSON envelope (pretty-printed, members in another order, characters of the member values and of
+    //    the member names written as \uXXXX escapes): the same document
+    {
+        let esc = |t: &str, every: usize| -> String {
+            let mut o = String::from("\"");
+            for (i, c) in t.chars().enumerate() {
+                if i % every == 0 || c == '"' || c == '\\' || (c as u32) < 0x20 { o.push_str(&format!("\\u{:04x}", c as u32)); } else { o.push(c); }
+            }
+            o.push('"');
+            o
+        };
+        let mut taken = 0;
+        for (k, (f, ps)) in flows.iter().zip(&presented).enumerate() {
+            if taken >= ctx.tier.pick(6, 30) {
+                break;
+            }
+            let p = match ps.first() {
+                Some(Some(p)) => p,
+                _ => continue,
+            };
+            let parts = match split(f.issue.fmt, p) {
+                Some(x) => x,
+                None => continue,
+            };
+            let segs: Vec<&str> = parts.jwt.splitn(3, '.').collect();
+            if segs.len() != 3 || parts.jwt.chars().any(|c| (c as u32) > 0xffff) || parts.disclosures.iter().any(|d| d.chars().any(|c| (c as u32) > 0xffff)) {
+                continue;
+            }
+            taken += 1;
+            let va = f.verify_args(p);
+            let compact = VerifyArgs { input: parts.compact(), fmt: Fmt::Compact, ..va.clone() };
+            let plain: Value = serde_json::from_str(&parts.json_form(false, None)).unwrap();
+            let mut texts: Vec<(String, String)> = vec![("pretty".into(), serde_json::to_string_pretty(&plain).unwrap())];
+            for every in [1usize, 2, 7] {
+                let ds: Vec<String> = parts.disclosures.iter().map(|d| esc(d, every)).collect();
+                let kb = match &parts.kb { Some(kb) => format!(",{}:{}", esc("kb_jwt", every + 1), esc(kb, every)), None => String::new() };
+                texts.push((format!("escaped-every-{}", every), format!("{{{}:[{}],{}:{},{}:{},{}:{}{}}}", esc("disclosures", every + 1), ds.join(","), esc("signature", 3), esc(segs[2], every), esc("payload", 2), esc(segs[1], every), esc("protected", 1), esc(segs[0], every), kb)));
+            }
+            texts.push(("members-reversed-with-blanks".into(), format!("\n{{ \"kb_jwt\" : {} ,\t\"disclosures\" : {} , \"signature\":\"{}\" ,\r\n \"payload\" : \"{}\" , \"protected\" : \"{}\" }} \n", serde_json::to_string(&parts.kb).unwrap(), serde_json::to_string(&parts.disclosures).unwrap(), segs[2], segs[1], segs[0])));
+            for (name, text) in texts {
+                if k % 2 == 1 && name == "escaped-every-2" && ctx.tier == Tier::Quick {
+                    continue;
+                }
+                ctx.count("transcoding.compact->json:envelope-spelling");
+                pairs.push(Pair { name: format!("envelope-spelling:{}", name), a: compact.clone(), b: VerifyArgs { input: text, fmt: Fmt::Json, ..va.clone() }, origin: json!({"flow": f.json(), "envelope": name}) });
+            }
+        }
+    }
     // 6. the issuer-signed JWT re-signed (same payload, same key) under other protected headers: whatever a header member means,
     //    it means the same in both serializations
     {
